@@ -446,6 +446,35 @@ func c06Tree(r gen.R, shape string, o ISOOpts) Tree {
 			t = append(t, TNode{Path: fmt.Sprintf("S%d.BIN", i), Size: sz, Seed: uint64(i + 1), Kind: []string{"prf", "text", "sparse"}[i%3]})
 		}
 		return t
+	case "name-lengths":
+		// one name of every length: a record's length depends on the name's length (and its parity), on the
+		// Rock Ridge entries and on where the system use area has to be continued
+		var t Tree
+		maxL := 30
+		if rr {
+			maxL = 250
+		}
+		t = append(t, TNode{Path: "nl", Dir: true}, TNode{Path: "nd", Dir: true})
+		mk := func(prefix string, l int, ext string) string {
+			n := prefix
+			for len(n) < l-len(ext) {
+				n += string(rune('a' + (len(n)*7+l)%26))
+			}
+			return n + ext
+		}
+		for l := 1; l <= maxL; l++ {
+			if l >= 8 {
+				t = append(t, TNode{Path: "nl/" + mk(fmt.Sprintf("%03d", l), l, ".dat"), Size: 10 + l, Seed: uint64(3000 + l)})
+			}
+			if l < 8 || l%3 == 0 {
+				t = append(t, TNode{Path: "nl/" + mk(fmt.Sprintf("n%03d", l)[:min(l, 4)], l, ""), Size: 5 + l, Seed: uint64(3300 + l)})
+			}
+			if l >= 4 && (l <= 30 || (l >= 110 && l <= 160)) {
+				d := "nd/" + mk(fmt.Sprintf("d%03d", l), l, "")
+				t = append(t, TNode{Path: d, Dir: true}, TNode{Path: d + "/in.txt", Size: l, Seed: uint64(3600 + l)})
+			}
+		}
+		return t
 	case "longnames":
 		t := genTree(r, TreeCfg{Dirs: 4, Files: 25, Depth: 3, Unit: unit, MaxSize: 5000, LongNames: true, Unicode: rr || o.Joliet})
 		if rr {
@@ -809,7 +838,7 @@ func c06Run(c core.Case, env *core.Env) core.Result {
 }
 
 func init() {
-	shapes := []string{"mixed", "flat-many", "collisions", "deep", "sizes", "longnames", "same-names", "many-dirs"}
+	shapes := []string{"mixed", "flat-many", "collisions", "deep", "sizes", "longnames", "same-names", "many-dirs", "name-lengths"}
 	core.Register(&core.Check{
 		ID:          "C06",
 		Level:       "exploration",
